@@ -28,6 +28,10 @@ case "$PROP:$TIER" in
   C08:*) ARGS="-paths 9 -reps 1";;
   C14:*) ARGS="-check tasks -n 3";;
   C16:*) ARGS="-check try";;
+  C09:quick) ARGS="-g 8 -rounds 30";;
+  C09:*) ARGS="-g 16 -rounds 300";;
+  C12:quick) ARGS="-g 8 -rounds 40";;
+  C12:*) ARGS="-g 16 -rounds 400";;
   C13:quick) ARGS="-len 3";;
   C13:*) ARGS="-len 4";;
   C15:quick) ARGS="-res 2 -reps 3";;
